@@ -113,13 +113,21 @@ func cmdCheck(args []string) int {
 	var runs []*funcRun
 	for _, k := range p.Cs.Order {
 		fc := p.Cs.Funcs[k]
-		if fc.Trusted || fc.IsIface || !funcServes(fc, *prop) {
+		if fc.Trusted || fc.IsIface || fc.Inline || !funcServes(fc, *prop) {
 			continue
 		}
 		r := &funcRun{key: k}
 		tf := time.Now()
 		r.enc, r.err = VerifyFunc(p, k)
 		r.wall = time.Since(tf).Seconds()
+		runs = append(runs, r)
+	}
+	for _, cr := range p.Cs.Callers {
+		if !hasProp(cr.Props, *prop) {
+			continue
+		}
+		r := &funcRun{key: "callers." + cr.Callee}
+		r.enc, r.err = VerifyCallers(p, cr)
 		runs = append(runs, r)
 	}
 	for _, lm := range p.Cs.Lemmas {
